@@ -83,9 +83,10 @@ tot = caught = first = 0
 for mp in sorted(glob.glob(os.path.join(ROOT, "seeded", "*", "meta.json"))):
     m = json.load(open(mp))
     cb = ", ".join(f'{k} ({v["signatures"][0].split("  (x")[0] if v["signatures"] else ""})' for k, v in m["checks_run"].items() if v["caught"]) or "MISSED"
-    tot += 1; caught += cb != "MISSED"; first += (cb != "MISSED" and m["history"].startswith("caught by the check as first built"))
+    if cb == "MISSED" and m["history"].startswith("NOT"): cb = "not reported, on purpose (see history)"; notrep = globals().get("notrep", 0) + 1; globals()["notrep"] = notrep
+    tot += 1; caught += not cb.startswith(("MISSED", "not reported")); first += (not cb.startswith(("MISSED", "not reported")) and m["history"].startswith("caught by the check as first built"))
     esc = lambda s: s.replace("|", "\\|").replace("\n", " ")
     out.append(f'| {m["seed"]} | {esc(m["breaks"])[:200]} | {esc(m.get("needs_to_manifest",""))[:200]} | {esc(cb)[:220]} | {esc(m["history"])[:330]} |')
-out.append(f"\n{tot} confirmed seeded changes; {caught} caught by the current checks ({first} by the check as first built, {caught-first} after strengthening).\n")
+out.append(f"\n{tot} confirmed seeded changes; {caught} caught by the current checks ({first} by the check as first built, {caught-first} after strengthening); {globals().get('notrep', 0)} deliberately not reported because the changed behaviour does not contradict the property as stated (explained in their history column).\n")
 open(os.path.join(ROOT, "DESIGN.md"), "w").write(head + "\n".join(out) + "\n")
 print("DESIGN.md regenerated:", len(out), "lines generated")
